@@ -52,6 +52,13 @@ static uint64_t work(int i, int round, bool shared) {
             g.query_name = std::string("\x03www\x07", 5) + std::string(7, static_cast<char>('a' + (q + i) % 26)) + std::string("\x03com\x00", 5);
             g.query_classtype = ClassType(); g.query_classtype->type = static_cast<uint16_t>(1 + q % 3); g.query_classtype->class_ = 1;
             g.response_delay = q - 50; g.query_size = 40 + q;
+            // every member a renderer prints differs from thread to thread (a value cached or shared between instances shows up as another thread's data)
+            g.server_ip = (i % 2) ? std::string("\xc0\x00\x02", 3) + static_cast<char>(10 + i) : std::string("\x20\x01\x0d\xb8\x00\x00\x00\x00\x00\x00\x00\x00\x00\x00\x00", 15) + static_cast<char>(10 + i);
+            g.server_port = static_cast<uint16_t>(53 + i); g.client_hoplimit = static_cast<uint8_t>(60 + i); g.response_size = 100 + 3 * i + q;
+            g.query_opcode = static_cast<uint8_t>(i % 6); g.query_rcode = static_cast<uint16_t>(i); g.response_rcode = static_cast<uint16_t>(i + 1);
+            g.query_qdcount = static_cast<uint16_t>(1 + i); g.query_udp_size = static_cast<uint16_t>(512 + i); g.query_edns_version = static_cast<uint8_t>(i % 2);
+            g.bailiwick = std::string("\x02", 1) + std::string(2, static_cast<char>('a' + i % 26)) + std::string("\x00", 1); g.asn = "AS" + std::to_string(64500 + i); g.country_code = std::string(2, static_cast<char>('A' + i % 26));
+            g.round_trip_time = 1000 + i;
             if (q % 4 == 0) { GenericResourceRecord rr; rr.name = *g.query_name; rr.classtype = *g.query_classtype; rr.ttl = 300; rr.rdata = std::string("\x7f\x00\x00\x01", 4); g.response_answers = std::vector<GenericResourceRecord>{rr}; }
             h = fnv(h, std::to_string(x.buffer_qr(g))); plain.buffer_qr(g);
             h = fnv(h, g.string());
